@@ -142,8 +142,16 @@ func TestSvsGen(t *testing.T) {
 				switch k := rng.Intn(10); {
 				case k < 2:
 					n := nodes[rng.Intn(N)]
-					n.sv.IncrSeqNo(n.name)
-					observe(map[string]any{"ev": "pub", "node": n.id})
+					if rng.Intn(4) == 0 { // a jump, as the routing daemon makes when it starts (SetSeqNo)
+						to := n.sv.GetSeqNo(n.name) + 1 + uint64(rng.Intn(3))
+						if err := n.sv.SetSeqNo(n.name, to); err != nil {
+							panic(err)
+						}
+						observe(map[string]any{"ev": "pub", "node": n.id, "to": to})
+					} else {
+						to := n.sv.IncrSeqNo(n.name)
+						observe(map[string]any{"ev": "pub", "node": n.id, "to": to})
+					}
 				case k < 7 && len(msgs) > 0:
 					// any message ever sent, the recent ones more often; to any node but its sender
 					i := len(msgs) - 1 - rng.Intn(min(len(msgs), 1+rng.Intn(6)))
@@ -165,8 +173,7 @@ func TestSvsGen(t *testing.T) {
 			sleep(1000)
 			observe(map[string]any{"ev": "adv", "dt": 1000})
 			a, b := nodes[0], nodes[1]
-			a.sv.IncrSeqNo(a.name)
-			observe(map[string]any{"ev": "pub", "node": a.id})
+			observe(map[string]any{"ev": "pub", "node": a.id, "to": a.sv.IncrSeqNo(a.name)})
 			if old := latest(b.id); old != nil && old.vec[0] < int(a.sv.GetSeqNo(a.name)) {
 				sleep(1000)
 				observe(map[string]any{"ev": "adv", "dt": 1000})
@@ -188,11 +195,9 @@ func TestSvsGen(t *testing.T) {
 					observe(map[string]any{"ev": "adv", "dt": 250, "probe": "outdated-covered", "who": a.id})
 					// (3) what is heard during the interval is newer than the outdated vector but still one publication
 					// behind: the node must speak up at the end of the interval
-					a.sv.IncrSeqNo(a.name)
-					observe(map[string]any{"ev": "pub", "node": a.id})
+					observe(map[string]any{"ev": "pub", "node": a.id, "to": a.sv.IncrSeqNo(a.name)})
 					lag := latest(a.id) // a's vector before its next publication
-					a.sv.IncrSeqNo(a.name)
-					observe(map[string]any{"ev": "pub", "node": a.id})
+					observe(map[string]any{"ev": "pub", "node": a.id, "to": a.sv.IncrSeqNo(a.name)})
 					sleep(1000)
 					observe(map[string]any{"ev": "adv", "dt": 1000})
 					a.face.FeedPacket(old.wire)
